@@ -217,3 +217,18 @@ func VerifDirtyScratch(ctx *Ctx, x any, bl bool, i int64, u uint64, f float64) {
 	ctx.bufU = u
 	ctx.bufF = f
 }
+
+// VerifRegisteredNames lists the names (and aliases) under which getters,
+// modifiers and callbacks are registered: what the parser consults.
+func VerifRegisteredNames() (getters, mods, callbacks []string) {
+	for k := range getterRegistry {
+		getters = append(getters, k)
+	}
+	for k := range modRegistry {
+		mods = append(mods, k)
+	}
+	for k := range callbackRegistry {
+		callbacks = append(callbacks, k)
+	}
+	return
+}
